@@ -44,7 +44,9 @@ ASSUMPTIONS = [
 SIM_STEMS = ["a", "b", "Song", "x y", "e\u0301x", "w\\in"]
 SM_EXTS = [".sm", ".SM", ".Sm", ".sM"]
 SSC_EXTS = [".ssc", ".SSC", ".SsC", ".sSc"]
-NEAR = ["x.sm.old", "x.ssca", "sm", "ssc", "x.smx", "x.ssc.bak", "xsm", "x.sm_", "SM", "x.ssc~", "x.s", "x.sc", "a.sm.txt", "ssc.x"]
+NEAR = ["x.sm.old", "x.ssca", "sm", "ssc", "x.smx", "x.ssc.bak", "xsm", "x.sm_", "SM", "x.ssc~", "x.s", "x.sc", "a.sm.txt", "ssc.x",
+        # only case FOLDING (not lower-casing) turns these into .ssc / .sm: they are not simfile names
+        "x.\u00dfc", "x.\u017fm", "x.\u017f\u017fc"]
 OTHER = ["banner.png", "BG.JPG", "x.ogg", "song.MP3", "notes.txt", "README", "a.lrc"]
 # directory names include ones that look like loose files (a song folder may be called "Butterfly.ogg"); names ending in
 # .sm / .ssc are not used for directories: the quantifier builds trees from *file* names with simfile extensions (a
@@ -222,6 +224,10 @@ def build(E, path, rel, node, files_out):
             data = b"x"
         E.write(p, data)
         files_out[E.norm(p)] = (kind, data)
+    if E.flavour == "native":
+        for name in node.get("links") or []:
+            # a symbolic link whose target does not exist: neither a file to open nor a directory to descend into
+            os.symlink(os.path.join(path, "no such target"), os.path.join(path, name))
     for name, sub in node["dirs"]:
         build(E, E.join(path, name), rel + "/" + name, sub, files_out)
 
@@ -531,7 +537,8 @@ def _node(draw, depth):
                 dirs.append([n, {"files": [], "dirs": []}])
             else:
                 dirs.append([n, draw(_node(depth + 1))])
-    return {"files": files, "dirs": dirs}
+    links = ["broken link"] if draw(st.integers(0, 7)) == 0 else []
+    return {"files": files, "dirs": dirs, "links": links}
 
 
 @st.composite
